@@ -25,6 +25,7 @@ char *format(char *fmt, ...) {
 bool file_exists(char *path) { if (path == LOCALP) return EXL; for (int i = 0; i < NP; i++) if (path == P[i]) return EX[i]; return 0; }
 void *hashmap_get(HashMap *map, char *key) { return 0; }
 void hashmap_put(HashMap *map, char *key, void *val) { }
+char *strdup(const char *s) { size_t n = strlen(s); char *p = malloc(n + 1); for (size_t i = 0; i <= n; i++) p[i] = s[i]; return p; }
 char *strndup(const char *s, size_t n) { char *p = malloc(n + 1); for (size_t i = 0; i < n; i++) p[i] = s[i]; p[n] = 0; return p; }
 bool equal(Token *tok, char *op) { size_t n = strlen(op); return (size_t)tok->len == n && !memcmp(tok->loc, op, n); }
 #define NT 12
